@@ -30,7 +30,10 @@ PROT = ('F:supvisors:', 'F:state_modes:', 'F:context:', 'F:mapper:', 'F:options:
 WIRING = ('F:supvisors:', 'F:state_modes:', 'F:context:', 'F:mapper:', 'F:options:', 'F:fsm:', 'F:starter:', 'F:stopper:',
           'F:failure_handler:', 'F:rpc_handler:', 'F:local_identifier:', 'F:instance_state_modes:')
 # ... and, for the call-outs into Starter / Stopper / failure handler / conciliation, the whole state & modes view
-VIEW_PROT = PROT + ('F:master_identifier:', 'F:stable_identifiers:', 'F:degraded_mode:')
+# ... and the report fields of the state objects (lost_instances / lost_processes: only assigned by
+# _SupvisorsBaseState.__init__ / _check_instances - structural_c02 obligation 6 scans every assignment of the package)
+VIEW_PROT = PROT + ('F:master_identifier:', 'F:stable_identifiers:', 'F:degraded_mode:', 'F:lost_instances:',
+                    'F:lost_processes:')
 
 
 # ------------------------------------------------------------------------------------------ view
@@ -515,11 +518,18 @@ class SlaveNext:
                 and implies(result is not None, ISM(self)[master(self)].state == result))
 
 
-@contract('statemachine:_WorkingState._master_next', props=['C02'])
+@contract('statemachine:_WorkingState._master_next', props=['C02', 'C06'])
 class WorkingMasterNext:
-    """the Master hands the lost processes to the failure handler; no state decision; the view is not touched"""
+    """C06 'When an instance is lost, the Master - and only the Master - applies to each managed process that was running
+    only there its running_failure_strategy' (mechanism 'Master-only repair'): the Master registers ONE failure job per
+    lost process (loop0_iter: the iteration of a lost process emits exactly add_default_job(that process); a for-loop
+    over the set visits each lost process once) and then triggers the handler, in the evaluation that detected the loss;
+    without lost process nothing is emitted.  No state decision; the view is not touched.
+    The ghost effect 'working_master_next' tells the overrides' contracts that this step was run (super() call)."""
     raises = ()
+    effect = 'working_master_next'
     variants = ['DistributionState', 'OperationState', 'ConciliationState']
+    loop0_effects = ('add_default_job',)
 
     def pre_valid(self):
         return next_pre(self)
@@ -533,11 +543,161 @@ class WorkingMasterNext:
     def post_view(self, old):
         return view_kept(self, old.self)
 
+    def post_effect_repairs_triggered(self, old):
+        return count_effects('trigger_jobs') == (1 if len(old.self.lost_processes) > 0 else 0)
+
+    def post_effect_nothing_without_loss(self, old):
+        return implies(len(old.self.lost_processes) == 0, no_effect())
+
     def loop0_inv(self, seen, loop_old):
         return view_kept(self, loop_old.self) and next_pre(self)
 
     def loop0_modifies(self):
         return [but_view(self)]
+
+    def loop0_iter_one_failure_job_per_lost_process(self, process, loop_old):
+        return (((effect_at('add_default_job', 0)[0] is process) if count_effects('add_default_job') == 1 else False)
+                and process in loop_old.self.lost_processes and no_effect('trigger_jobs'))
+
+
+def master_next_doc():
+    """C06 'When an instance is lost, the Master ... applies to each managed process that was running only there its
+    running_failure_strategy', 'for all instants at which an instance is lost (including during start/stop sequences and
+    conciliation)': in EVERY working state (DISTRIBUTION, OPERATION, CONCILIATION) the Master's _master_next runs the
+    repair step of _WorkingState._master_next (contract WorkingMasterNext: one failure job per lost process), exactly
+    once - an override that does not call super()._master_next() drops the lost processes for good (the next
+    evaluation's invalidate_failed() returns a new, empty report)."""
+    return True
+
+
+@contract('statemachine:DistributionState._master_next', props=['C06'])
+class DistributionMasterNext:
+    """see master_next_doc"""
+    raises = ()
+
+    def pre_valid(self):
+        return next_pre(self)
+
+    def modifies(self):
+        return [but_view(self)]
+
+    def post_effect_lost_processes_repaired(self):
+        return count_effects('working_master_next') == 1
+
+    def post_domain(self, result):
+        return result == SupvisorsStates.DISTRIBUTION or result == SupvisorsStates.OPERATION
+
+    def post_view(self, old):
+        return view_kept(self, old.self)
+
+
+@contract('statemachine:OperationState._master_next', props=['C06'])
+class OperationMasterNext:
+    """see master_next_doc"""
+    raises = ()
+
+    def pre_valid(self):
+        return next_pre(self)
+
+    def modifies(self):
+        return [but_view(self)]
+
+    def post_effect_lost_processes_repaired(self):
+        return count_effects('working_master_next') == 1
+
+    def post_domain(self, result):
+        return result == SupvisorsStates.OPERATION or result == SupvisorsStates.CONCILIATION
+
+    def post_view(self, old):
+        return view_kept(self, old.self)
+
+
+@contract('statemachine:ConciliationState._master_next', props=['C06'])
+class ConciliationMasterNext:
+    """see master_next_doc"""
+    raises = ()
+
+    def pre_valid(self):
+        return next_pre(self)
+
+    def modifies(self):
+        return [but_view(self)]
+
+    def post_effect_lost_processes_repaired(self):
+        return count_effects('working_master_next') == 1
+
+    def post_domain(self, result):
+        return result == SupvisorsStates.CONCILIATION or result == SupvisorsStates.OPERATION
+
+    def post_view(self, old):
+        return view_kept(self, old.self)
+
+
+# ------------------------------------------------------------------------------------------ _common_next (C10 / C09)
+def jobs_told(s, o):
+    """exactly two notifications: the Starter, then the Stopper, are given the report of this evaluation (the lost
+    instances and the processes lost with them)"""
+    sv = s.supvisors
+    a = effect_at('on_instances_invalidation', 0)
+    b = effect_at('on_instances_invalidation', 1)
+    return ((a[0] is sv.starter and a[1] is o.lost_instances and a[2] is o.lost_processes
+             and b[0] is sv.stopper and b[1] is o.lost_instances and b[2] is o.lost_processes)
+            if count_effects('on_instances_invalidation') == 2 else False)
+
+
+def jobs_invalidated_iff_instances_lost(s, o):
+    """C10 'or the target instance is lost, the job is abandoned' (mechanism 'jobs dropped with their instance'), C09
+    '(or given up on timeouts)' / 'loss of a non-Master instance during the ending phase': the Starter and the Stopper
+    are told whenever the report holds a lost INSTANCE - also when no process is reported lost with it (an instance lost
+    while only STOPPING processes remain there: the pending stop commands must still be dropped) - and only then"""
+    lost = len(o.lost_instances) > 0
+    return implies(lost, jobs_told(s, o)) and implies(not lost, no_effect('on_instances_invalidation'))
+
+
+@contract('statemachine:_MasterSlaveState._common_next', props=['C10', 'C09'])
+class MasterSlaveCommonNext:
+    """see jobs_invalidated_iff_instances_lost (ending states)"""
+    raises = ()
+    effect = 'common_next'
+    variants = ['RestartingState', 'ShuttingDownState']
+
+    def pre_valid(self):
+        return next_pre(self)
+
+    def modifies(self):
+        return [but_view(self)]
+
+    def post_view(self, old):
+        return view_kept(self, old.self)
+
+    def post_report_kept(self, old):
+        return self.lost_instances is old.self.lost_instances and self.lost_processes is old.self.lost_processes
+
+    def post_effect_jobs_invalidated_iff_instances_lost(self, old):
+        return jobs_invalidated_iff_instances_lost(self, old.self)
+
+
+@contract('statemachine:_WorkingState._common_next', props=['C10', 'C09'])
+class WorkingCommonNext:
+    """see jobs_invalidated_iff_instances_lost (working states)"""
+    raises = ()
+    effect = 'common_next'
+    variants = ['DistributionState', 'OperationState', 'ConciliationState']
+
+    def pre_valid(self):
+        return next_pre(self)
+
+    def modifies(self):
+        return [but_view(self)]
+
+    def post_view(self, old):
+        return view_kept(self, old.self)
+
+    def post_report_kept(self, old):
+        return self.lost_instances is old.self.lost_instances and self.lost_processes is old.self.lost_processes
+
+    def post_effect_jobs_invalidated_iff_instances_lost(self, old):
+        return jobs_invalidated_iff_instances_lost(self, old.self)
 
 
 def view_kept(s, o):
@@ -617,7 +777,7 @@ class SynchronizationNext:
         return next_shape_kept(self, old.self)
 
 
-@contract('statemachine:ElectionState.next', props=['C02', 'C08'])
+@contract('statemachine:ElectionState.next', props=['C02', 'C08', 'C01'])
 class ElectionNext:
     raises = ()
     inline = ['statemachine:_SupvisorsBaseState.next']
@@ -652,11 +812,23 @@ class ElectionNext:
     def post_shape(self, old):
         return next_shape_kept(self, old.self)
 
+    def post_effect_election_rule_runs_whenever_stable(self, result):
+        """C01 'A running Master that is the only one recognised is kept when instances join or leave; otherwise the
+        documented rule ... picks among the Masters still recognised, or among all running instances when there is none'
+        (mechanisms 'stability gate before election', 'priority to already declared Master'): as long as the instance
+        stays in ELECTION, select_master runs on EVERY evaluation in which the context is stable - not only when no
+        Master is known locally: after a healed split-brain several Masters are recognised and the rule must pick one -
+        and never while the context is unstable, nor in the evaluation that leaves ELECTION (the shared Master is kept)"""
+        stable = len(self.supvisors.state_modes.stable_identifiers) > 0
+        return count_effects('select_master') == (1 if stable and result == SupvisorsStates.ELECTION else 0)
 
-@contract('statemachine:_MasterSlaveState.next', props=['C02', 'C08', 'C09'])
+
+@contract('statemachine:_MasterSlaveState.next', props=['C02', 'C08', 'C09', 'C10'])
 class MasterSlaveNext:
     raises = ()
-    inline = ['statemachine:_SupvisorsBaseState.next']
+    # the _master_next overrides have their own (C06) contracts; here their real code is executed, as before
+    inline = ['statemachine:_SupvisorsBaseState.next', 'statemachine:DistributionState._master_next',
+              'statemachine:OperationState._master_next', 'statemachine:ConciliationState._master_next']
     variants = ['DistributionState', 'OperationState', 'ConciliationState', 'RestartingState', 'ShuttingDownState']
 
     def pre_valid(self):
@@ -695,8 +867,16 @@ class MasterSlaveNext:
         return implies(isinstance(self, RestartingState) or isinstance(self, ShuttingDownState),
                        result is not None and (result == own_state(self) or result == SupvisorsStates.FINAL))
 
-    def post_shape(self, old):
-        return next_shape_kept(self, old.self)
+    def post_effect_lost_instances_reach_starter_and_stopper(self, result):
+        """C10 'or the target instance is lost, the job is abandoned', C09 'loss of a non-Master instance during the ending
+        phase': EVERY evaluation, Master or not, runs the common step exactly once (contracts MasterSlaveCommonNext /
+        WorkingCommonNext: the Starter and the Stopper are told iff the report of this evaluation holds a lost
+        instance) - unless the state object decides ON ITS OWN to leave the state before it (new instance, local instance
+        or Master lost, failure strategy): then nothing was followed nor driven.  (The entry actions of SYNCHRONIZATION /
+        ELECTION / RESTARTING / SHUTTING_DOWN abort all jobs: C08 clause 3, C09 clause 2.)"""
+        return (count_effects('common_next') == 1
+                or (no_effect('common_next', 'follow_master', 'working_master_next') and result is not None
+                    and result != own_state(self)))
 
 
 # ------------------------------------------------------------------------------------------ exit() of the state classes
@@ -950,7 +1130,7 @@ def fsm_pre(f):
     return fsm_inv(f) and all(o in f.instance.sync_alerts for o in SYNC_OPTIONS)
 
 
-@contract('statemachine:FiniteStateMachine.next', props=['C02', 'C08'])
+@contract('statemachine:FiniteStateMachine.next', props=['C02', 'C08', 'C10', 'C06'])
 class FsmNext:
     """the periodic / event-driven evaluation: whatever `instance.next()` proposes goes through set_state (C02), and it
     is always proposed (C08 clause 2: re-evaluation reaches next())"""
@@ -972,13 +1152,35 @@ class FsmNext:
     def post_evaluated_once(self):
         return count_effects('set_state') == 1
 
+    def post_effect_periodic_timeout_check(self):
+        """C10 'if the expected STARTING/STOPPING acknowledgement is not seen within the tick margin ... the job is
+        abandoned' (mechanism 'periodic timeout check': Commander.check <- FiniteStateMachine.next): EVERY evaluation
+        checks the jobs of the Starter and of the Stopper, once each"""
+        sv = self.supvisors
+        return ((effect_at('commander_check', 0)[0] is sv.starter and effect_at('commander_check', 1)[0] is sv.stopper)
+                if count_effects('commander_check') == 2 else False)
+
+    def post_effect_deferred_repairs_triggered(self):
+        """C06 'a process that already has a start or stop job planned is left to that job' (mechanism 'deferral while
+        the application has jobs'): the repairs the failure handler deferred are applied by this periodic trigger -
+        exactly one trigger_jobs per evaluation (the state object's next() is seen through its contract here)"""
+        return count_effects('trigger_jobs') == 1
+
+    def post_effect_periodic_work_first(self):
+        """... on every evaluation, whatever the state object then decides: the periodic work precedes the evaluation
+        of the state (nothing of it can be skipped by an early return of next() / a refused transition)"""
+        log = effects()
+        return (log[0][0] == 'commander_check' and log[1][0] == 'commander_check' and log[2][0] == 'trigger_jobs'
+                and log[3][0] == 'set_state') if len(log) == 4 else False
+
 
 @contract('statemachine:FiniteStateMachine.on_restart', props=['C02', 'C09'])
 class OnRestart:
-    """C09 clause 2: 'On supvisors.restart ..., issued on any instance, the order reaches the Master': the Master enters
+    """(ghost effect 'fsm_on_restart' for the callers inside the FSM)  C09 clause 2: 'On supvisors.restart ..., issued on any instance, the order reaches the Master': the Master enters
     RESTARTING through set_state (C02 clause 3 is the call-pre of set_state); a slave re-routes exactly one request to its
     Master; without Master nothing happens (RuntimeError, see C17)"""
     raises = ('RuntimeError',)
+    effect = 'fsm_on_restart'
 
     def pre_inv(self):
         return fsm_pre(self)
@@ -1004,6 +1206,7 @@ class OnRestart:
 @contract('statemachine:FiniteStateMachine.on_shutdown', props=['C02', 'C09'])
 class OnShutdown:
     raises = ('ValueError',)
+    effect = 'fsm_on_shutdown'
 
     def pre_inv(self):
         return fsm_pre(self)
@@ -1024,3 +1227,93 @@ class OnShutdown:
 
     def exc_ValueError_no_master(self, old):
         return not is_master(old.self) and master(old.self) == '' and no_effect()
+
+
+# ------------------------------------------------------------------------------------------ process events (C06 / C01)
+def crashed(p):
+    """ProcessStatus.crashed() without identifier: 'has crashed or has exited unexpectedly'"""
+    return p._state == ProcessStates.FATAL or (p._state == ProcessStates.EXITED and not p.expected_exit)
+
+
+AUTOMATIC = ('add_default_job', 'trigger_jobs', 'fsm_on_restart', 'fsm_on_shutdown', 'set_state', 'send_restart_all',
+             'send_shutdown_all', 'start_applications', 'stop_applications', 'conciliate_conflicts')
+
+
+@contract('statemachine:FiniteStateMachine.on_process_state_event', props=['C06', 'C01'])
+class OnProcessStateEvent:
+    """C06 'the Master - and only the Master - applies ... its running_failure_strategy ...; on a process crash the
+    application-level strategies and SHUTDOWN / RESTART are applied the same way'; C01 'No instance starts, stops or
+    conciliates anything automatically unless it is that Master'; comment of the code (anchor 'Master-only repair'): 'to
+    avoid infinite application restart, exclude the case where process state is forced'.
+    The event's process is the one handed to the Starter and the Stopper (argument of the 'commander_on_event'
+    effects); its attributes are read where the code read them: just before the first automatic action
+    (effect_pre), or in the final state when no action was taken (nothing ran after the reads)."""
+    raises = ()
+
+    def pre_inv(self, status):
+        return fsm_pre(self)
+
+    def pre_master_seen_running(self):
+        return master_seen_running(self)
+
+    def modifies(self, status, event):
+        return [everything_but(*WIRING)]
+
+    def post_effect_jobs_see_the_event(self, status):
+        """the Starter, then the Stopper, are given the event of a known process (C10: acknowledgements end the jobs)"""
+        sv = self.supvisors
+        a = effect_at('commander_on_event', 0)
+        b = effect_at('commander_on_event', 1)
+        return (count_effects('commander_on_event') == 0 and no_effect(*AUTOMATIC)) or (
+            (a[0] is sv.starter and b[0] is sv.stopper and a[1] is b[1]) if count_effects('commander_on_event') == 2 else False)
+
+    def post_effect_only_the_master_acts(self, old):
+        return implies(not is_master(old.self), no_effect(*AUTOMATIC))
+
+    def post_effect_at_most_one_action(self):
+        return (count_effects('fsm_on_restart') + count_effects('fsm_on_shutdown') + count_effects('add_default_job') <= 1
+                and count_effects('trigger_jobs') == count_effects('add_default_job')
+                and no_effect('start_applications', 'stop_applications', 'conciliate_conflicts'))
+
+    def post_effect_restart_only_on_crash_with_restart_strategy(self):
+        """'on a process crash ... SHUTDOWN / RESTART are applied the same way' - and only then"""
+        e = effect_at('commander_on_event', 0)[1] if count_effects('commander_on_event') == 2 else None
+        acted = count_effects('fsm_on_restart') == 1 and count_effects('commander_on_event') == 2
+        p = at(effect_pre('fsm_on_restart', 0), e) if acted else None
+        return ((crashed(p) and p.rules.running_failure_strategy == RunningFailureStrategies.RESTART)
+                if acted else count_effects('fsm_on_restart') == 0)
+
+    def post_effect_shutdown_only_on_crash_with_shutdown_strategy(self):
+        e = effect_at('commander_on_event', 0)[1] if count_effects('commander_on_event') == 2 else None
+        acted = count_effects('fsm_on_shutdown') == 1 and count_effects('commander_on_event') == 2
+        p = at(effect_pre('fsm_on_shutdown', 0), e) if acted else None
+        return ((crashed(p) and p.rules.running_failure_strategy == RunningFailureStrategies.SHUTDOWN)
+                if acted else count_effects('fsm_on_shutdown') == 0)
+
+    def post_effect_failure_job_only_for_unforced_crash(self):
+        """'... STOP_APPLICATION stops the whole application, RESTART_APPLICATION stops then restarts it' on a crash - and
+        a forced state is not retried: a failure job is registered only for the event's process, crashed, with an
+        application-level strategy and no forced state (read just before the registration)"""
+        e = effect_at('commander_on_event', 0)[1] if count_effects('commander_on_event') == 2 else None
+        acted = count_effects('add_default_job') == 1 and count_effects('commander_on_event') == 2
+        j = effect_at('add_default_job', 0)[0] if acted else None
+        p = at(effect_pre('add_default_job', 0), e) if acted else None
+        strategy = p.rules.running_failure_strategy if acted else None
+        return ((j is e and crashed(p) and p.forced_state is None
+                 and (strategy == RunningFailureStrategies.STOP_APPLICATION
+                      or strategy == RunningFailureStrategies.RESTART_APPLICATION))
+                if acted else count_effects('add_default_job') == 0)
+
+    def post_effect_master_applies_the_strategy_of_a_crash(self, old):
+        """the converse: when the Master took NO action, the event's process (final state = state at the decision: nothing
+        ran after it) had not crashed, or its strategy is CONTINUE / RESTART_PROCESS (left to Supervisor's autorestart),
+        or it is an application-level strategy on a forced state"""
+        p = effect_at('commander_on_event', 0)[1] if count_effects('commander_on_event') == 2 else None
+        strategy = p.rules.running_failure_strategy if count_effects('commander_on_event') == 2 else None
+        idle = count_effects('fsm_on_restart') + count_effects('fsm_on_shutdown') + count_effects('add_default_job') == 0
+        return (implies(is_master(old.self) and crashed(p),
+                        strategy != RunningFailureStrategies.RESTART and strategy != RunningFailureStrategies.SHUTDOWN
+                        and implies(strategy == RunningFailureStrategies.STOP_APPLICATION
+                                    or strategy == RunningFailureStrategies.RESTART_APPLICATION,
+                                    p.forced_state is not None))
+                if idle and count_effects('commander_on_event') == 2 else True)
